@@ -607,6 +607,26 @@ theorem recordset_write_paged_spec (P : Nat) (hP : 0 < P) (crc : Bytes → Nat) 
   rw [h2] at g1; cases g1
   exact ⟨pb', bytes, f, h1, h3, h4, g2, g4, g6⟩
 
+open Model.PageBuffer in
+/-- **the compressed `writeToVersion2` on the page buffer**: the record loop writes into the compressor, which writes
+into the buffer whatever chunks it likes, when it likes (`chunks`, adding up to `comp records`); the placeholders,
+the back-patches and the CRC over `scan(offset+21, end)` then cover the COMPRESSED bytes.  The buffer ends with the
+old content followed by one batch that the independent decoder accepts and that decompresses to exactly the records. -/
+theorem v2_write_compressed_paged_spec (P : Nat) (hP : 0 < P) (crc : Bytes → Nat) (hcrc : ∀ b, crc b < M32)
+    (comp : Bytes → Bytes) (dec : Int → Bytes → Option Bytes) (chunks : List Bytes) (attrs now : Int)
+    (recs : List PRec) (pb : PB) (hc : Contig P pb.pages) (hb0 : pb.base = 0)
+    (hne : recs ≠ []) (hwf : (frameOfV2C comp attrs now recs).WF) (hcodec : codecOf attrs ≠ 0)
+    (hlog : logAppend attrs = false) (hdec : ∀ p, dec (codecOf attrs) (comp p) = some p)
+    (hch : chunks.flatten = comp (recordsV2 now (firstTime now recs) 0 recs)) :
+    ∃ pb' bytes f, writeV2PagedC P crc chunks attrs now recs pb = some pb' ∧ flat pb' = flat pb ++ bytes ∧
+      Contig P pb'.pages ∧
+      readFrame crc bytes = some (f, []) ∧ f.count = recs.length ∧
+      flattenEntry ⟨crc, crc⟩ dec (.batch f) = some (isControl attrs, expected (recs.map (effTime now)) recs) := by
+  obtain ⟨pb', bytes, h1, h2, h3, h4, _⟩ := writeV2PagedC_spec P hP crc comp chunks attrs now recs pb hc hb0 hne hch
+  obtain ⟨bytes', f, g1, g2, _, g4, _, g6⟩ := writeV2C_spec crc hcrc comp dec attrs now recs hne hwf hcodec hlog hdec
+  rw [h2] at g1; cases g1
+  exact ⟨pb', bytes, f, h1, h3, h4, g2, g4, g6⟩
+
 /-! ### Timestamp type (attributes bit 3) -/
 
 /-- LogAppendTime: every record of the batch carries the batch's append time (`maxTimestamp`), whatever its delta -/
